@@ -38,7 +38,9 @@ Steps == [axis : {"child", "desc"}, test : {"a", "b", "*"}]
 Preds == {[pk |-> "none", pn |-> "", pv |-> ""],
           [pk |-> "child=", pn |-> "a", pv |-> "1"], [pk |-> "child=", pn |-> "b", pv |-> "1"],
           [pk |-> "self=", pn |-> "", pv |-> "1"], [pk |-> "attr=", pn |-> "", pv |-> "1"],
-          [pk |-> "child", pn |-> "a", pv |-> ""], [pk |-> "child", pn |-> "b", pv |-> ""]}
+          [pk |-> "child", pn |-> "a", pv |-> ""], [pk |-> "child", pn |-> "b", pv |-> ""],
+          \* predicates that a candidate without any content satisfies
+          [pk |-> "nochild", pn |-> "a", pv |-> ""], [pk |-> "self=", pn |-> "", pv |-> ""]}
 XPaths == { [steps |-> s, pk |-> p.pk, pn |-> p.pn, pv |-> p.pv] : s \in UNION {[1..k -> Steps] : k \in 1..MaxSteps}, p \in Preds }
 
 NestedDocs == { [n |-> 8, par |-> <<0, 1, 2, 3, 1, 5, 6, 7>>,
